@@ -232,6 +232,14 @@ example : ∀ w ∈ [((3 : Nat), [1, 2]), (1, [9, 9, 9]), (7, [5])], w.2 ≠ [] 
 example : (readDataAt true (tmpState [(3, [1, 2]), (1, [9, 9, 9]), (7, [5])]).1 (tmpState [(3, [1, 2]), (1, [9, 9, 9]), (7, [5])]).2 0 9).2
     = [none, some 9, some 9, some 9, some 2, none, none, some 5, none] := by decide
 
+/-- the run-into witness (writes [10,20) [0,5) [5,12) [9,11), temp-file buffer): the third write starts at the end of the most
+    recently created list and runs into the first one; AddInterval takes its general path (two lists ⇒ no tail-append shortcut),
+    the lists are merged into ONE, and after the fourth write byte 11 is the third write's byte (3), not the first write's (1) -/
+example : (tmpState [(10, List.replicate 10 1), (0, List.replicate 5 2), (5, List.replicate 7 3), (9, [4, 4])]).2.length = 1 ∧
+    (readDataAt true (tmpState [(10, List.replicate 10 1), (0, List.replicate 5 2), (5, List.replicate 7 3), (9, [4, 4])]).1
+      (tmpState [(10, List.replicate 10 1), (0, List.replicate 5 2), (5, List.replicate 7 3), (9, [4, 4])]).2 0 20).2.map (·.getD 0)
+    = [2, 2, 2, 2, 2, 3, 3, 3, 3, 4, 4, 3, 1, 1, 1, 1, 1, 1, 1, 1] := by decide
+
 theorem read_untouched_is_hole_mem (ws : List (Nat × List Nat)) (hne : ∀ w ∈ ws, w.2 ≠ []) (off len i : Nat)
     (h : (readDataAt false [] (memLists ws) off len).2[i]? = some none) : (posixOf ws).getD (off + i) 0 = 0 := by
   rw [readDataAt_spec _ _ _ (memLists_inv ws hne), List.getElem?_map] at h
